@@ -45,7 +45,20 @@ def run(chk):
     chk.add_eval(summary.get("evaluations", 0), summary.get("nontrivial", 0))
     if crashed:
         fails.append({"kind": "search-crashed", "detail": crashed})
-    fails += fl
+    # a cluster value that occurs in two separate runs of the output (non-monotone clusters: C02's known
+    # classes) cannot carry uniform flags: propagate_flags works per run.  Decided on the input by C02's classifier.
+    import importlib
+    c02 = importlib.import_module("C02")
+    for f in fl:
+        cls = None
+        if f.get("kind") == "flags-not-uniform-in-cluster":
+            rc2, fl2c, _ = e2e.replay_one(binp, "C02", f["font"], f["req"])
+            if any(" not-monotone " in l for l in fl2c):
+                cls = c02.known_class({"kind": "not-monotone", "req": f["req"], "font": f["font"]}, binp)
+        if cls and chk.is_known("nonmonotone_clusters_split_flag_groups"):
+            chk.known_finding("nonmonotone_clusters_split_flag_groups", "cluster value in two separate runs (C02 class %s): font=%s req=[%s]" % (cls, f["font"], f["req"][:300]))
+        else:
+            fails.append(f)
     # (2) redistribution, fixed-seed sweep with listed instances
     sw = sweeps.SWEEPS["C04"]
     known = sweeps.known_instances("C04")
